@@ -153,7 +153,12 @@ pub fn run(this_build_has_wat: bool) {
             expected.insert("loaded:dir", wit_dir_bytes(&cand));
         }
         if r["wasm"] == true {
-            let b = wat::parse_str(component_wat("from-wasm")).unwrap();
+            // a `.wasm` file holding text is returned as it is: the extension decides, not the contents
+            let b = if r["wasmtext"] == true {
+                component_wat("from-wasm-holding-text").into_bytes()
+            } else {
+                wat::parse_str(component_wat("from-wasm")).unwrap()
+            };
             write(&with_ext(&cand, "wasm"), &b);
             expected.insert("loaded:wasm", b);
         }
@@ -175,9 +180,13 @@ pub fn run(this_build_has_wat: bool) {
         }
         let mut overrides = HashMap::new();
         match r["ovr"].as_str().unwrap() {
-            "file" => {
+            o @ ("file" | "textfile") => {
                 let p = tmp.path().join("elsewhere").join("override.wasm");
-                let b = wat::parse_str(component_wat("from-override")).unwrap();
+                let b = if o == "textfile" {
+                    component_wat("from-override-holding-text").into_bytes()
+                } else {
+                    wat::parse_str(component_wat("from-override")).unwrap()
+                };
                 write(&p, &b);
                 expected.insert("loaded:override", b);
                 overrides.insert(name.to_string(), p);
